@@ -1,4 +1,4 @@
-\* exhaustive TLC configuration for property C07 (thorough tier) (generated by spec/mkcfg.py; constants explained in RcProxy.tla)
+\* C15 with a node that goes off the network once (its connection dies, connects are refused until it is back)
 SPECIFICATION Spec
 CONSTANTS
   c1 = c1
@@ -6,19 +6,19 @@ CONSTANTS
   Clients = {c1}
   Nodes = {"n1", "n2"}
   SlotNode <- Slot2
-  Menu <- MenuMulti
-  MaxReq <- MR1x3
-  AnswerKinds <- AKvalsE
+  Menu <- MenuFwd
+  MaxReq <- MR1x2
+  AnswerKinds <- AKok
   MaxMsg = 4
   TimeoutOn = FALSE
-  MaxBkClose = 0
+  MaxBkClose = 1
   AllowCliClose = FALSE
   MaxHops = 0
   MaxBurst = 2
   CanonKinds = TRUE
   PoolAny = TRUE
   MaxPause = 0
-  MaxDown = 0
+  MaxDown = 1
 INVARIANTS NoViolation DoneMsgHasDoneFrags QueuedMsgsInUse LiveFragPeer
 VIEW view
 CHECK_DEADLOCK FALSE
